@@ -288,7 +288,11 @@ func runC18(c *Ctx) {
 	ev.Set("trace_events", nev)
 	ev.Set("trace_events_judged", legal)
 	nEval += int64(legal)
+	perWhy := map[string]int{}
 	for t, why := range bad {
+		if perWhy[worlds[t].Kind+why]++; perWhy[worlds[t].Kind+why] > 3 {
+			continue // each reproduction is a TLC run
+		}
 		cs := calls[t]
 		// the batch run names the line; reproduce alone with the prefix up to the rejected call
 		b2, _, _, _ := validateRdTraces(c, []rdWorld{worlds[t]}, [][]rdCall{cs}, 0)
